@@ -26,6 +26,7 @@ var Targets = []Target{
 	{Dir: eng + "routing", Type: "HandlingDataManager", Pkg: "routing",
 		Init: []string{"Setup", "initializeOtel", "initializeDoctor", "SetHandleRoutes", "RunDiagnosisWorker"},
 		Only: []string{"stream"}},
+	{Dir: eng + "routing", Type: "StreamsData", Pkg: "routing", Only: []string{"stream"}},
 	{Dir: eng + "config", Type: "TxnPoliciesAccessor", Pkg: "config"},
 	{Dir: eng + "utils/queue", Type: "DelayedPriorityQueue", Pkg: "queue", Init: []string{"NewInMemoryDelayedPriorityQueue"}},
 	{Dir: eng + "utils/limit", Type: "singleRateLimitState", Pkg: "limit"},
